@@ -304,6 +304,14 @@ class DIMSEServiceProvider:
                 )
                 t.start()
             else:
+                if (
+                    isinstance(d_primitive, (C_FIND, C_GET, C_MOVE))
+                    and d_primitive.is_valid_request
+                ):
+                    # Any C-CANCEL requests received prior to a cancellable
+                    #   service request cannot apply to it
+                    self.cancel_req = {}
+
                 self.msg_queue.put((context_id, cast(DimseServiceType, d_primitive)))
 
             # Fix for memory leak, Issue #41
